@@ -333,6 +333,10 @@ func ParseContractFile(path, pkgPath string) (*ContractFile, error) {
 				return nil, fail(l, "frame <callee> <pure|args>")
 			}
 			cur.Opaque[f[0]] = f[1]
+			if f[1] == "keeps" {
+				// frame <callee> keeps <loc>, <loc>, ... : the callee may write anything except these locations
+				cur.Opaque[f[0]] = "keeps:" + strings.TrimSpace(rest[strings.Index(rest, "keeps")+5:])
+			}
 		case "let":
 			if cur == nil {
 				return nil, fail(l, "let outside func")
